@@ -271,6 +271,9 @@ structure Decl where
   copy : Option CopyMode := none
   /-- default value (a leaf, or a plain container that is wrapped on first read) -/
   dflt : CVal := .leaf .none
+  /-- the default is DYNAMIC and not reproducible (`_name_default` handing out a serial number, a
+  uuid, a timestamp): every computation gives a value never seen before -/
+  dyn : Bool := false
   deriving Repr
 
 /-- One declared trait of one object with its `__dict__` entry. -/
@@ -287,16 +290,23 @@ structure Obj where
 /-- A fresh instance (`cls.__new__(cls)`): empty `__dict__`. -/
 def Obj.fresh (oid : Nat) (decls : List Decl) : Obj := ⟨oid, decls.map (fun d => ⟨d, none⟩)⟩
 
+/-- The default value computed when the allocator stands at `n`: the static
+template, or - for a dynamic default - a value that no earlier computation gave
+(the serial number `n`). -/
+def defaultOf (sl : Slot) (n : Nat) : CVal × Nat :=
+  if sl.decl.dyn then (.leaf (.int n), n + 1) else (sl.decl.dflt, n)
+
 /-- Reading a slot (`getattr`): the stored value, else the default, which
-`getattr_trait` builds (for container defaults: a new bound container object)
-and stores (ctraits.c:1979-1986). -/
+`getattr_trait` computes (for container defaults: a new bound container object;
+for a dynamic default: by calling the factory, ONCE) and stores
+(ctraits.c:1979-1986) - so every later read gives the same value. -/
 def readSlot (E : Env) (o : Nat) (n : Nat) (sl : Slot) : CVal × Slot × Nat :=
   match sl.val with
   | some v => (v, sl, n)
   | none =>
-    match validate E o sl.decl.shape n sl.decl.dflt with
+    match validate E o sl.decl.shape (defaultOf sl n).2 (defaultOf sl n).1 with
     | .ok (v, n') => (v, { sl with val := some v }, n')
-    | .error _ => (sl.decl.dflt, { sl with val := some sl.decl.dflt }, n)
+    | .error _ => ((defaultOf sl n).1, { sl with val := some (defaultOf sl n).1 }, (defaultOf sl n).2)
 
 /-- Assignment to a slot (`setattr`), by trait kind. -/
 def assignSlot (E : Env) (o : Nat) (n : Nat) (sl : Slot) (v : CVal) : Except Exc (Slot × Nat) :=
@@ -404,6 +414,17 @@ def effMode (md arg : Option CopyMode) : CopyMode :=
     | some .shallow => .shallow
     | _ => .ref
 
+/-- The second dispatch chain of `copy_traits`, in the loop over the DEFERRED
+traits (delegates and properties, has_traits.py:1616-1630), transcribed branch
+by branch like `effMode` from the first: `shallow`, then `ref` (a no-op), then
+`deep or deep_copy`, then `shallow_copy`. -/
+def effModeDeferred (md arg : Option CopyMode) : CopyMode :=
+  if md = some .shallow then .shallow
+  else if md = some .ref then .ref
+  else if md = some .deep ∨ arg = some .deep then .deep
+  else if arg = some .shallow then .shallow
+  else .ref
+
 /-- The value handed to `setattr(self, name, value)` for one trait. -/
 def copyValue (E : Env) (mode : CopyMode) (n : Nat) (v : CVal) : Except Exc (CVal × Nat) :=
   match mode with
@@ -499,6 +520,13 @@ def nestedTraitFate (outer : Outer) (ownerMeta childMeta : Option CopyMode) (unc
     | .ref => .same          -- the child itself is shared
     | .shallow => .same      -- copy.copy(child): `__setstate__` re-assigns the very same values
     | .deep => valueFate (effMode childMeta (nestedArg outer)) uncopyable
+
+/-- Fate of the value of a deferred trait (a read/write Property, a delegate
+with a local value, a WeakRef) of the object being copied. -/
+def deferredFate (outer : Outer) (md : Option CopyMode) (uncopyable : Bool) : Fate :=
+  match outer with
+  | .pickle => .deep
+  | _ => valueFate (effModeDeferred md outer.arg) uncopyable
 
 /-! ## Container mutation (what "live" means)
 
